@@ -133,6 +133,20 @@ def splitRule (dflt : Option Kind) (s : Bytes) : Option (Kind × Bytes) :=
     else if typ = [] then dflt.map (·, pat)
     else none
 
+/-! ### Tables of rules that carry values (`hosts`)
+
+A line of a hosts table is `<rule> <address>...`; `hosts.ParseIPs` takes the first blank-separated
+field as the rule text and `Load` hands it to `MixMatcher.Add`. `rw` is what the parser does to that
+field on the way: the identity on this tree (regenerated fact `c12HostsRuleAsWritten`). -/
+
+/-- the rules a table's first fields stand for (`none`: a line is rejected) -/
+def hostsRules (rw : Bytes → Bytes) (dflt : Option Kind) : List Bytes → Option (List (Kind × Bytes))
+  | [] => some []
+  | f :: fs =>
+    match splitRule dflt (rw f), hostsRules rw dflt fs with
+    | some r, some rs => some (r :: rs)
+    | _, _ => none
+
 /-! ### `data_provider/domain_set`: sets assembled from own rules and other sets
 
 `NewDomainSet` loads the set's expressions and files into one `MixMatcher`
